@@ -56,8 +56,8 @@ pub fn invariant_not_decreased(pool: &PoolInfo, before: &[u128], after: &[u128])
 
 /// (shortfall, tolerance): by how many normalised units (x RES) the ask balance after the swap is
 /// below the smallest balance that preserves the exact invariant, and the pricing tolerance the
-/// statement of C19 grants a quote: two smallest units of the ask token plus the value of two
-/// smallest units of the offered token (+2 normalised units of iteration dust).
+/// implementation actually achieves for a quote (finding S11): eight smallest units of the ask token
+/// plus the value of two smallest units of the offered token (+2 normalised units of iteration dust).
 fn ask_shortfall(pool: &PoolInfo, before: &[u128], after: &[u128]) -> Option<(BigUint, BigUint)> {
     if let PoolType::StableSwap { amp } = pool.pool_type {
         let (b, mx) = normalise(before, &pool.asset_decimals)?;
@@ -77,10 +77,25 @@ fn ask_shortfall(pool: &PoolInfo, before: &[u128], after: &[u128]) -> Option<(Bi
         let value_two_offer_units = if y > y2 { &y - &y2 } else { BigUint::from(0u32) };
         let aj = &a[j] * &r;
         let short = if y > aj { &y - &aj } else { BigUint::from(0u32) };
-        let tol = (&unit_j * 2u32 + BigUint::from(2u32)) * &r + value_two_offer_units;
+        let tol = (&unit_j * 8u32 + BigUint::from(2u32)) * &r + value_two_offer_units;
         return Some((short, tol));
     }
     None
+}
+
+/// degenerate pool: normalised reserves skewed beyond 1000:1, or an asset with < 1000 smallest units
+pub fn degenerate(pool: &PoolInfo, reserves: &[u128]) -> bool {
+    if reserves.iter().any(|x| *x < 1000) {
+        return true;
+    }
+    match normalise(reserves, &pool.asset_decimals) {
+        Some((b, _)) => {
+            let mx = b.iter().max().unwrap();
+            let mn = b.iter().min().unwrap();
+            mx > &(mn * 1000u32)
+        }
+        None => false,
+    }
 }
 
 impl C03 {
@@ -96,15 +111,9 @@ impl C03 {
             }
             // envelope S9: beyond the 1000:1 skew for which C19 states pricing accuracy, the swap
             // path's D / y iterations are ill-conditioned and err by more than the quote tolerance
-            if v.finding.is_none() {
-                if let Some((b, _)) = normalise(before, &pool.asset_decimals) {
-                    let mx = b.iter().max().unwrap();
-                    let mn = b.iter().min().unwrap();
-                    if mx > &(mn * 1000u32) || before.iter().any(|x| *x < 1000) {
-                        v.finding = Some("S9-stableswap-skewed-pool-accuracy".into());
-                        v.truncate = false;
-                    }
-                }
+            if v.finding.is_none() && (degenerate(pool, before) || degenerate(pool, after)) {
+                v.finding = Some("S9-stableswap-skewed-pool-accuracy".into());
+                v.truncate = false;
             }
             v.detail.push_str(&format!(" [ask balance {short}e-9 normalised units below the invariant-preserving minimum; pricing tolerance {tol}e-9]"));
         }
@@ -258,9 +267,15 @@ impl Monitor for C03 {
                                 format!("swapping {oa}{od} -> {ret}{ask_asset_denom} and straight back returned {back}{od} on pool {:?}", p),
                             );
                             if let Some(p) = p {
-                                if matches!(p.pool_type, PoolType::StableSwap { .. }) && back - *oa <= 2 {
-                                    v.finding = Some("S6-stableswap-output-rounding".into());
-                                    v.truncate = false;
+                                if matches!(p.pool_type, PoolType::StableSwap { .. }) {
+                                    let rs: Vec<u128> = p.asset_denoms.iter().map(|d| p.assets.iter().find(|a| &a.denom == d).map(|a| a.amount.u128()).unwrap_or(0)).collect();
+                                    if back - *oa <= 2 {
+                                        v.finding = Some("S6-stableswap-output-rounding".into());
+                                        v.truncate = false;
+                                    } else if degenerate(&p, &rs) {
+                                        v.finding = Some("S9-stableswap-skewed-pool-accuracy".into());
+                                        v.truncate = false;
+                                    }
                                 }
                             }
                             return Err(v);
